@@ -250,6 +250,11 @@ func (node *ListNode) stringIndented(level int) string {
 // variablesSwapKeyValue returns a new map with the keys and the values of node.variables swapped.
 // The key and the value of the node.variables are guaranteed to be unique, by the rep invariant.
 func (node *ListNode) variablesSwapKeyValue() map[int]string {
+	if len(node.variables) == 0 {
+		// nothing to swap; allocate nothing (reading a nil map is fine), this runs once
+		// per enclosing list and only escapes the heap when the compiler inlines it
+		return nil
+	}
 	result := map[int]string{}
 	for k, v := range node.variables {
 		result[v] = k
